@@ -90,16 +90,34 @@ def run(ck: Checker):
              'a composition transforms by applying its linearised children', f'returns `{norm(rets[0].value) if rets else None}`', construct='TransformerComposition._transform')
     cl = repo.mod(f'{SIMPL}.cleanup')
     cf = cl.func('cleanup')
+
+    def pnorm(e):
+        """`Pass()`; arguments spelled out with their default value do not change the pass."""
+        if isinstance(e, ast.Call) and isinstance(e.func, ast.Name) and not e.args:
+            res = repo.resolve_expr(cl, e.func)
+            if res and res[2] == 'class':
+                init = res[0].functions.get(f'{res[1]}.__init__')
+                dflt = {}
+                if init is not None:
+                    pos = init.args.args[1:]
+                    for a_, d_ in zip(pos[len(pos) - len(init.args.defaults):], init.args.defaults):
+                        dflt[a_.arg] = d_
+                    for a_, d_ in zip(init.args.kwonlyargs, init.args.kw_defaults):
+                        if d_ is not None:
+                            dflt[a_.arg] = d_
+                if all(k.arg in dflt and isinstance(k.value, ast.Constant) and isinstance(dflt[k.arg], ast.Constant) and k.value.value == dflt[k.arg].value for k in e.keywords):
+                    return f'{e.func.id}()'
+        return norm(e)
     lst = deref(cf, ast.Name('_strategies'))
-    base_ok = isinstance(lst, ast.List) and [norm(e) for e in lst.elts] == ['RemoveRedundantGates()', 'MergeUnaryOperators()', 'MergeDuplicateGates()']
+    base_ok = isinstance(lst, ast.List) and [pnorm(e) for e in lst.elts] == ['RemoveRedundantGates()', 'MergeUnaryOperators()', 'MergeDuplicateGates()']
     if not base_ok:
         # _strategies has two bindings (the += under use_heavy); look at the first
         from ..core import assignments_in
         defs = assignments_in(cf, '_strategies')
         firsts = [v for k, v, s in defs if k == 'assign']
-        base_ok = len(firsts) == 1 and isinstance(firsts[0], ast.List) and [norm(e) for e in firsts[0].elts] == ['RemoveRedundantGates()', 'MergeUnaryOperators()', 'MergeDuplicateGates()']
+        base_ok = len(firsts) == 1 and isinstance(firsts[0], ast.List) and [pnorm(e) for e in firsts[0].elts] == ['RemoveRedundantGates()', 'MergeUnaryOperators()', 'MergeDuplicateGates()']
         augs = [(v, s) for k, v, s in defs if k == 'aug']
-        heavy_ok = len(augs) == 1 and norm(augs[0][0]) == '[MergeEquivalentGates()]' and isinstance(cl.parents[augs[0][1]], ast.If) and norm(cl.parents[augs[0][1]].test) == 'use_heavy'
+        heavy_ok = len(augs) == 1 and isinstance(augs[0][0], ast.List) and [pnorm(e) for e in augs[0][0].elts] == ['MergeEquivalentGates()'] and isinstance(cl.parents[augs[0][1]], ast.If) and norm(cl.parents[augs[0][1]].test) == 'use_heavy'
     else:
         heavy_ok = False
     rets = [n for n in ast.walk(cf) if isinstance(n, ast.Return)]
